@@ -17,6 +17,7 @@
 #include "parsec/parsec_hwloc.h"
 #include <mpi.h>
 #include <stdio.h>
+#include <hwloc.h>
 #include <stdlib.h>
 
 int main(int argc, char **argv)
@@ -41,6 +42,17 @@ int main(int argc, char **argv)
         fprintf(out, "%s[", v ? "," : "");
         for( t = 0; t < ctx->virtual_processes[v]->nb_cores; t++ )
             fprintf(out, "%s%d", t ? "," : "", ctx->virtual_processes[v]->execution_streams[t]->core_id);
+        fprintf(out, "]");
+    }
+    /* the map's own view: highest core index in the affinity the map gives to each thread (-1 = none) */
+    fprintf(out, "],\"aff\":[");
+    for( v = 0; v < ctx->nb_vp; v++ ) {
+        fprintf(out, "%s[", v ? "," : "");
+        for( t = 0; t < ctx->virtual_processes[v]->nb_cores; t++ ) {
+            int ht = 0;
+            hwloc_cpuset_t cs = parsec_vpmap_get_vp_thread_affinity(v, t, &ht);
+            fprintf(out, "%s%d", t ? "," : "", NULL == cs ? -1 : hwloc_bitmap_last(cs));
+        }
         fprintf(out, "]");
     }
     fprintf(out, "],\"ncores\":%d,\"total\":%d}\n", parsec_hwloc_nb_real_cores(), parsec_vpmap_get_nb_total_threads());
